@@ -3,12 +3,15 @@
  * Unit style: src/comm.c is #included so that the static functions (setup_accepted_connection,
  * get_user_command, ...) are reachable; the executable is linked without comm.c.o.
  *
- * One real interactive user is created per case through the REAL setup_accepted_connection()
- * on one end of an AF_UNIX socketpair.  libc send() and epoll_ctl() are interposed:
- *   send()      on the user fd consumes a scripted result (sendres) and logs the offered chunk;
- *   epoll_ctl() records whether write interest (EPOLLOUT) is registered for the user fd.
+ * Up to 4 real interactive users per case (`@k <command>`, default user 1), each created through the REAL
+ * setup_accepted_connection() on one end of an AF_UNIX socketpair (PORT_ASCII / PORT_TELNET) or, for the console user,
+ * through the real init_console_user().  libc send(), write() and epoll_ctl() are interposed:
+ *   send() / write(1,..)  consume the scripted results of that user (sendres) and log the offered chunk;
+ *   epoll_ctl()           records whether write interest (EPOLLOUT) is registered for the user's fd.
+ * Every output line is tagged `u<k>`.
  *
- * Commands: sendres / write / vwrite / flush / cycle / wready / close / peerclose / peerfin / dump
+ * Per-user commands: connect / sendres / write / vwrite / flush / eflush / close / dump / snoop <j> / unsnoop
+ * Commands that make the driver visit every user: cycle / wready / flushall / peerclose / peerfin
  * (see props/c14.py for the trace format).
  */
 #include "vh.h"
@@ -25,10 +28,12 @@
 
 /* ---- unlimited-length canonical output --------------------------------- */
 
+static int c14_cur = 1;		/* user whose lines are being printed */
+
 static void out (const char *fmt, ...)
 {
   va_list ap;
-  fputs ("VL ", stderr);
+  fprintf (stderr, "VL u%d ", c14_cur);
   va_start (ap, fmt);
   vfprintf (stderr, fmt, ap);
   va_end (ap);
@@ -92,35 +97,59 @@ static char *unhex (const char *s)
 
 /* ---- state -------------------------------------------------------------- */
 
-static int c14_ready = 0;
-static int c14_fd[2] = { -1, -1 };
-static int c14_userfd = -1;	/* fd watched by the interposers (stays set after close) */
-static int c14_peer_open = 0;
-static object_t *uob = 0;
-static int c14_want = 0;
-
+#define MAXU 4
 enum { R_ACCEPT, R_ERR };
 typedef struct { int kind; long n; int err; char tok[24]; } sendres_t;
-static sendres_t *c14_q = 0;
-static int c14_qhead = 0, c14_qlen = 0, c14_qcap = 0;
-
-static void q_push (sendres_t r)
+typedef struct
 {
-  if (c14_qlen == c14_qcap)
-    c14_q = (sendres_t *) realloc (c14_q, sizeof (sendres_t) * (c14_qcap = c14_qcap ? c14_qcap * 2 : 64));
-  c14_q[c14_qlen++] = r;
+  int created, console;
+  object_t *ob;
+  int fd[2];
+  int userfd;			/* fd watched by the interposers; -1 once the connection is gone */
+  int peer_open;
+  int want;
+  sendres_t *q;
+  int qhead, qlen, qcap;
+} user_t;
+static user_t U[MAXU + 1];
+static int c14_console_user = 0;	/* number of the console user, 0 = none */
+
+static void q_push (user_t * u, sendres_t r)
+{
+  if (u->qlen == u->qcap)
+    u->q = (sendres_t *) realloc (u->q, sizeof (sendres_t) * (u->qcap = u->qcap ? u->qcap * 2 : 64));
+  u->q[u->qlen++] = r;
+}
+
+static int user_of_fd (int fd)
+{
+  if (fd < 0)
+    return 0;
+  for (int k = 1; k <= MAXU; k++)
+    if (U[k].created && U[k].userfd == fd)
+      return k;
+  return 0;
 }
 
 /* ---- libc interposition ------------------------------------------------- */
 
-static int c14_console = 0;	/* the user is the console user (all_users[0]): output goes through write(1, ..) */
-
-/* consume the next scripted result for a chunk of `len` bytes offered by flush_message */
-static ssize_t scripted_io (const void *buf, size_t len)
+/* consume the next scripted result of user k for a chunk of `len` bytes offered by flush_message */
+static ssize_t scripted_io (int k, const void *buf, size_t len)
 {
+  user_t *u = &U[k];
   sendres_t r;
-  if (c14_qhead < c14_qlen)
-    r = c14_q[c14_qhead++];
+  int save = c14_cur;
+  ssize_t rc;
+  static long calls = 0;
+  c14_cur = k;
+  if (++calls > 20000)
+    {
+      /* a broken send loop (e.g. message_length gone negative) would fill the disk before the case alarm fires */
+      out ("crash send-loop: more than 20000 send calls in one case");
+      _exit (0);
+    }
+  if (u->qhead < u->qlen)
+    r = u->q[u->qhead++];
   else
     {
       r.kind = R_ACCEPT;
@@ -128,36 +157,43 @@ static ssize_t scripted_io (const void *buf, size_t len)
     }
   if (r.kind == R_ACCEPT)
     {
-      size_t k = (size_t) r.n < len ? (size_t) r.n : len;
-      char *h = hexof ((const unsigned char *) buf, k);
+      size_t n = (size_t) r.n < len ? (size_t) r.n : len;
+      char *h = hexof ((const unsigned char *) buf, n);
       out ("send %lu a %s", (unsigned long) len, h);
       free (h);
-      return (ssize_t) k;
+      rc = (ssize_t) n;
     }
-  out ("send %lu %s -", (unsigned long) len, r.tok);
-  errno = r.err;
-  return -1;
+  else
+    {
+      out ("send %lu %s -", (unsigned long) len, r.tok);
+      errno = r.err;
+      rc = -1;
+    }
+  c14_cur = save;
+  return rc;
 }
 
 ssize_t send (int fd, const void *buf, size_t len, int flags)
 {
-  if (fd >= 0 && fd == c14_userfd)
-    return scripted_io (buf, len);
+  int k = user_of_fd (fd);
+  if (k)
+    return scripted_io (k, buf, len);
   return (ssize_t) syscall (SYS_sendto, fd, buf, len, flags, NULL, 0);
 }
 
 /* the console user's flush_message uses FILE_WRITE (STDOUT_FILENO, ..) = write(2) */
 ssize_t write (int fd, const void *buf, size_t len)
 {
-  if (c14_console && fd == STDOUT_FILENO)
-    return scripted_io (buf, len);
+  if (c14_console_user && fd == STDOUT_FILENO)
+    return scripted_io (c14_console_user, buf, len);
   return (ssize_t) syscall (SYS_write, fd, buf, len);
 }
 
 int epoll_ctl (int epfd, int op, int fd, struct epoll_event *ev)
 {
-  if (fd >= 0 && fd == c14_userfd && ev && (op == EPOLL_CTL_ADD || op == EPOLL_CTL_MOD))
-    c14_want = (ev->events & EPOLLOUT) != 0;
+  int k = user_of_fd (fd);
+  if (k && ev && (op == EPOLL_CTL_ADD || op == EPOLL_CTL_MOD))
+    U[k].want = (ev->events & EPOLLOUT) != 0;
   return (int) syscall (SYS_epoll_ctl, epfd, op, fd, ev);
 }
 
@@ -169,124 +205,134 @@ static int nonblock (int fd)
   return fl < 0 ? -1 : fcntl (fd, F_SETFL, fl | O_NONBLOCK);
 }
 
-static void c14_setup (int kind)	/* 0 ascii, 1 telnet, 2 console */
+static void fail (const char *what)
+{
+  out ("setupfail %s", what);
+  _exit (0);
+}
+
+static void c14_setup (int k, int kind)	/* 0 ascii, 1 telnet, 2 console */
 {
   error_context_t econ;
   port_def_t port;
   struct sockaddr_in addr;
+  user_t *u = &U[k];
+  char num[8], *a[1];
 
-  if (c14_ready)
+  if (u->created)
     return;
-  c14_ready = 1;
-  g_runtime = async_runtime_init ();
   if (!g_runtime)
-    {
-      out ("setupfail runtime");
-      _exit (0);
-    }
+    g_runtime = async_runtime_init ();
+  if (!g_runtime)
+    fail ("runtime");
   eval_cost = CONFIG_INT (__MAX_EVAL_COST__);
+  u->userfd = -1;
   if (kind == 2)
     {
+      if (c14_console_user)
+        fail ("second console");
       /* the real console-mode connect: new_interactive (STDIN_FILENO) -> slot 0, master connect(), logon() */
       VH_TRY (econ)
         init_console_user (0);
       VH_CATCH (econ)
-        out ("setupfail error");
-        _exit (0);
+        fail ("error");
       VH_END
       if (!all_users || !all_users[0] || !all_users[0]->ob)
+        fail ("noconsole");
+      u->ob = all_users[0]->ob;
+      u->console = 1;
+      c14_console_user = k;
+    }
+  else
+    {
+      interactive_t *ip = 0;
+      /* removing the console user closes fd 0; a new socket must not get that number (new_interactive() takes
+       * STDIN_FILENO for the console) */
+      if (fcntl (STDIN_FILENO, F_GETFD) < 0)
+        open ("/dev/null", O_RDONLY);
+      if (socketpair (AF_UNIX, SOCK_STREAM, 0, u->fd) < 0 || nonblock (u->fd[0]) < 0 || nonblock (u->fd[1]) < 0)
+        fail ("socketpair");
+      u->userfd = u->fd[0];
+      u->peer_open = 1;
+      u->created = 1;		/* the interposers must know the fd during the connect */
+      memset (&addr, 0, sizeof addr);
+      addr.sin_family = AF_INET;
+      port.kind = kind == 1 ? PORT_TELNET : PORT_ASCII;
+      port.port = 4000;
+      port.fd = INVALID_SOCKET_FD;
+      if (kind == 1)
         {
-          out ("setupfail noconsole");
-          _exit (0);
+          /* setup_accepted_connection add_message()s these itself and then flushes; none of them can trigger a send
+           * (12 bytes into an empty ring), so the write markers can be printed up front */
+          char *neg[] = { telnet_no_echo, telnet_do_ttype, telnet_do_naws, telnet_do_linemode };
+          for (int i = 0; i < 4; i++)
+            {
+              char *h = hexof ((unsigned char *) neg[i], strlen (neg[i]));
+              out ("wbeg m %s", h);
+              out ("wend");
+              free (h);
+            }
         }
-      uob = all_users[0]->ob;
-      add_ref (uob, "c14 harness");
-      c14_console = 1;
-      c14_userfd = -1;
-      return;
+      VH_TRY (econ)
+        setup_accepted_connection (&port, u->fd[0], &addr);
+      VH_CATCH (econ)
+        fail ("error");
+      VH_END
+      for (int i = 1; all_users && i < max_users; i++)
+        if (all_users[i] && all_users[i]->fd == u->fd[0])
+          ip = all_users[i];
+      if (!ip || !ip->ob || ip->ob->interactive != ip)
+        fail ("nouser");
+      u->ob = ip->ob;
     }
-  if (socketpair (AF_UNIX, SOCK_STREAM, 0, c14_fd) < 0 || nonblock (c14_fd[0]) < 0 || nonblock (c14_fd[1]) < 0)
-    {
-      out ("setupfail socketpair");
-      _exit (0);
-    }
-  c14_userfd = c14_fd[0];
-  c14_peer_open = 1;
-  memset (&addr, 0, sizeof addr);
-  addr.sin_family = AF_INET;
-  port.kind = kind == 1 ? PORT_TELNET : PORT_ASCII;
-  port.port = 4000;
-  port.fd = INVALID_SOCKET_FD;
-  if (kind == 1)
-    {
-      /* setup_accepted_connection add_message()s these itself and then flushes; none of them can trigger a send
-       * (12 bytes into an empty ring), so the write markers can be printed up front */
-      char *neg[] = { telnet_no_echo, telnet_do_ttype, telnet_do_naws, telnet_do_linemode };
-      for (int i = 0; i < 4; i++)
-        {
-          char *h = hexof ((unsigned char *) neg[i], strlen (neg[i]));
-          out ("wbeg m %s", h);
-          out ("wend");
-          free (h);
-        }
-    }
-  VH_TRY (econ)
-    setup_accepted_connection (&port, c14_fd[0], &addr);
-  VH_CATCH (econ)
-    out ("setupfail error");
-    _exit (0);
-  VH_END
-  if (!all_users || max_users < 2 || !all_users[1] || !all_users[1]->ob || all_users[0])
-    {
-      out ("setupfail nouser");
-      _exit (0);
-    }
-  uob = all_users[1]->ob;
-  add_ref (uob, "c14 harness");
-  if (uob->interactive != all_users[1])
-    {
-      out ("setupfail interactive");
-      _exit (0);
-    }
+  u->created = 1;
+  add_ref (u->ob, "c14 harness");
+  snprintf (num, sizeof num, "%d", k);
+  a[0] = num;
+  vh_apply_str (u->ob, "set_oid", 1, a, 0, 0);
 }
 
 /* ---- commands ------------------------------------------------------------ */
 
-static void st_line (int existed)
+static void st_line (int k, int existed)
 {
-  interactive_t *ip = uob->interactive;
+  user_t *u = &U[k];
+  interactive_t *ip = u->ob->interactive;
+  int save = c14_cur;
+  c14_cur = k;
   if (existed && !ip)
     out ("close");
   if (!ip)
     {
-      c14_userfd = -1;		/* the fd number is closed and may be reused */
+      u->userfd = -1;		/* the fd number is closed and may be reused */
       out ("st closed");
     }
   else
-    out ("st %d %d %d %d %d", c14_want || c14_console, ip->message_producer, ip->message_consumer, ip->message_length,
+    out ("st %d %d %d %d %d", u->want || u->console, ip->message_producer, ip->message_consumer, ip->message_length,
          (ip->iflags & NET_DEAD) ? 1 : 0);
+  c14_cur = save;
 }
 
+/* one pass of the event loop's I/O part: poll, then process_io() (which also flushes the console user) */
 static void poll_and_process (void)
 {
   error_context_t econ;
   struct timeval tv = { 0, 0 };
   eval_cost = CONFIG_INT (__MAX_EVAL_COST__);
   VH_TRY (econ)
-    if (c14_console)
+    int n = do_comm_polling (&tv);
+    if (n > 0 || c14_console_user)
       {
-        /* no fd of the console user is polled: the pass of process_io() that any event causes flushes it */
-        g_num_io_events = 0;
+        if (n <= 0)
+          g_num_io_events = 0;	/* no fd of the console user is polled: any event causes the pass that flushes it */
         process_io ();
       }
-    else if (do_comm_polling (&tv) > 0)
-      process_io ();
   VH_CATCH (econ)
     out ("lpcerr");
   VH_END
 }
 
-static int c14_sendres (const char *arg)
+static int c14_sendres (user_t * u, const char *arg)
 {
   char *copy = strdup (arg), *save = 0;
   for (char *t = strtok_r (copy, ",", &save); t; t = strtok_r (0, ",", &save))
@@ -319,7 +365,7 @@ static int c14_sendres (const char *arg)
         }
       else
         continue;
-      q_push (r);
+      q_push (u, r);
     }
   free (copy);
   return 1;
@@ -328,37 +374,53 @@ static int c14_sendres (const char *arg)
 static int c14_cmd (char *line)
 {
   error_context_t econ;
-  char *arg = strchr (line, ' ');
-  size_t clen = arg ? (size_t) (arg - line) : strlen (line);
-  int existed;
+  int k = 1;
+  char *arg;
+  size_t clen;
+  int existed[MAXU + 1];
+  int global = 0;
+
+  if (line[0] == '@')
+    {
+      k = atoi (line + 1);
+      line = strchr (line, ' ');
+      if (!line || k < 1 || k > MAXU)
+        return 0;
+      while (*line == ' ')
+        line++;
+    }
+  arg = strchr (line, ' ');
+  clen = arg ? (size_t) (arg - line) : strlen (line);
 #define IS(s) (clen == strlen (s) && !strncmp (line, s, clen))
+  if (!(IS ("connect") || IS ("sendres") || IS ("write") || IS ("vwrite") || IS ("flush") || IS ("eflush") || IS ("cycle")
+        || IS ("wready") || IS ("flushall") || IS ("close") || IS ("peerclose") || IS ("peerfin") || IS ("dump")
+        || IS ("snoop") || IS ("unsnoop")))
+    return 0;
+  while (arg && *arg == ' ')
+    arg++;
+  c14_cur = k;
+  user_t *u = &U[k];
+
+  if (IS ("sendres"))
+    return c14_sendres (u, arg ? arg : "");
   if (IS ("connect"))
     {
-      while (arg && *arg == ' ')
-        arg++;
       int kind = arg && !strcmp (arg, "telnet") ? 1 : arg && !strcmp (arg, "console") ? 2 : 0;
-      if (c14_ready)
+      if (u->created)
         {
           out ("badcmd connect after the first operation");
           return 1;
         }
-      c14_setup (kind);
+      c14_setup (k, kind);
       if (kind == 1)
-        st_line (0);
+        st_line (k, 0);
       return 1;
     }
-  if (!(IS ("sendres") || IS ("write") || IS ("vwrite") || IS ("flush") || IS ("cycle") || IS ("wready") || IS ("close")
-        || IS ("peerclose") || IS ("peerfin") || IS ("dump")))
-    return 0;
-  while (arg && *arg == ' ')
-    arg++;
-  if (IS ("sendres"))
-    return c14_sendres (arg ? arg : "");
-  c14_setup (0);
+  c14_setup (k, 0);
 
   if (IS ("dump"))
     {
-      interactive_t *ip = uob->interactive;
+      interactive_t *ip = u->ob->interactive;
       if (!ip || ip->message_length <= 0)
         out ("dump -");
       else
@@ -374,8 +436,28 @@ static int c14_cmd (char *line)
         }
       return 1;
     }
+  if (IS ("snoop") || IS ("unsnoop"))
+    {
+      int j = IS ("snoop") && arg ? atoi (arg) : 0;
+      if (IS ("snoop") && (j < 1 || j > MAXU))
+        return 0;
+      if (j)
+        c14_setup (j, 0);
+      c14_cur = k;
+      /* new_set_snoop() raises an LPC error when one of them is no longer interactive: nothing changes then */
+      if (u->ob->interactive && (!j || U[j].ob->interactive))
+        {
+          VH_TRY (econ)
+            new_set_snoop (u->ob, j ? U[j].ob : 0);
+          VH_CATCH (econ)
+            out ("lpcerr");
+          VH_END
+        }
+      return 1;
+    }
 
-  existed = uob->interactive != 0;
+  for (int i = 1; i <= MAXU; i++)
+    existed[i] = U[i].created && U[i].ob->interactive != 0;
   eval_cost = CONFIG_INT (__MAX_EVAL_COST__);
 
   if (IS ("write") || IS ("vwrite"))
@@ -391,28 +473,38 @@ static int c14_cmd (char *line)
       }
       VH_TRY (econ)
         if (v)
-          add_vmessage (uob, "%s", bytes);
+          add_vmessage (u->ob, "%s", bytes);
         else
-          add_message (uob, bytes);
+          add_message (u->ob, bytes);
       VH_CATCH (econ)
         out ("lpcerr");
       VH_END
+      c14_cur = k;
       out ("wend");
       free (bytes);
     }
   else if (IS ("flush"))
     {
-      if (uob->interactive)
+      if (u->ob->interactive)
         {
           VH_TRY (econ)
-            flush_message (uob->interactive);
+            flush_message (u->ob->interactive);
           VH_CATCH (econ)
             out ("lpcerr");
           VH_END
         }
     }
+  else if (IS ("eflush") || IS ("flushall"))
+    {
+      /* the flush_messages() efun, called from LPC: with the user object / without argument (every user) */
+      char *a[1] = { IS ("flushall") ? "all" : "me" };
+      global = IS ("flushall");
+      if (vh_apply_str (u->ob, "do_flush", 1, a, 0, 0))
+        out ("lpcerr");
+    }
   else if (IS ("cycle"))
     {
+      global = 1;
       VH_TRY (econ)
         char *cmd = get_user_command ();
         if (cmd)
@@ -422,34 +514,44 @@ static int c14_cmd (char *line)
       VH_END
     }
   else if (IS ("wready"))
-    poll_and_process ();
+    {
+      global = 1;
+      poll_and_process ();
+    }
   else if (IS ("close"))
     {
-      if (uob->interactive)
+      if (u->ob->interactive)
         {
           VH_TRY (econ)
-            remove_interactive (uob, 0);
+            remove_interactive (u->ob, 0);
           VH_CATCH (econ)
             out ("lpcerr");
           VH_END
         }
     }
-  else if (IS ("peerclose"))
+  else if (IS ("peerclose") || IS ("peerfin"))
     {
-      if (c14_peer_open)
+      global = 1;		/* the pass of process_io() also serves the write-ready events of the other users */
+      if (u->peer_open)
         {
-          close (c14_fd[1]);
-          c14_peer_open = 0;
+          if (IS ("peerclose"))
+            {
+              close (u->fd[1]);
+              u->peer_open = 0;
+            }
+          else
+            shutdown (u->fd[1], SHUT_WR);
         }
       poll_and_process ();
     }
-  else if (IS ("peerfin"))
+  if (global)
     {
-      if (c14_peer_open)
-        shutdown (c14_fd[1], SHUT_WR);
-      poll_and_process ();
+      for (int i = 1; i <= MAXU; i++)
+        if (U[i].created)
+          st_line (i, existed[i]);
     }
-  st_line (existed);
+  else
+    st_line (k, existed[k]);
   return 1;
 #undef IS
 }
